@@ -56,6 +56,9 @@ def tasks(tier, seed=0):
     out += pairs_tasks(tier, "C21", BIN + CMP + ["neg", "bitwise_not"])
     out.append(task("vf.bounded.si_enum", "mci", "si._minimal_common_integer_splitted/contract-bounded", ["C21", "C22"], kind="bounded",
                     replay="vf.bounded.si_enum:replay_mci", wmax=4 if tier == "quick" else 5, budget_s=100 if tier == "quick" else 1500))
+    # mul / udiv / sdiv / or / xor / and fold their partial results with least_upper_bound: its three-operand obligations are shared with C22
+    from vf.props import C22 as _C22
+    out += [t for t in _C22._tasks(tier, seed) if "least_upper_bound3" in t["id"]]
     return out
 
 
